@@ -38,10 +38,10 @@ claim("C11", "M+K", "SMT bounded model checking of MIR (z3); Kani/CBMC harnesses
       "Kernel level: anti-reorg confirmation thresholds of both on-chain event queues (no irreversible conclusion before ANTI_REORG_DELAY confirmations nor before a CSV output matures), heights 1..2^31, all CSV delays; BlockLocator ring operations (Kani) where registered. Equivalence of block-delivery styles is history-quantified and outside the claim.",
       "trusted: rustc MIR dump, engine_m, z3, Kani/CBMC")
 claim("C17", "M", "SMT bounded model checking of MIR (z3 + cvc5 portfolio)",
-      "Kernel level (narrow): the channel_update acceptance closures of NetworkGraph::update_channel_internal - strictly newer timestamp per direction, htlc_maximum <= known capacity - for all timestamps/flags/amounts; counterexamples are replayed through the public NetworkGraph API. Signatures, announcements, pruning and order-independence over message sets are outside the claim.",
+      "Kernel level (narrow): the channel_update acceptance closures of NetworkGraph::update_channel_internal - strictly newer timestamp per direction, htlc_maximum <= known capacity - for all timestamps/flags/amounts, and node_announcement ordering (applied iff the node is known and the timestamp is strictly newer, signed and unsigned path alike); counterexamples are replayed through the public NetworkGraph API. Signatures, channel announcements, pruning and order-independence over message sets are outside the claim.",
       "trusted: rustc MIR dump, engine_m, z3")
 claim("C06", "M", "SMT bounded model checking of MIR (z3 + cvc5 portfolio)",
-      "Kernel level (narrow): the fee and scheduling kernels that justice claims run on - first-attempt fee, RBF bumping (monotone, BIP-125 rules 3/4), package output value, merge, re-bump timer tied to the counterparty CSV height -, completeness of the retained revocation secrets (protocol-order prefix of the top m indices, SHA-256 uninterpreted) and the classification of revoked outputs as malleable packages. Detection of revoked commitments, secret derivation, package construction and witness validity are outside the claim.",
+      "Kernel level (narrow): the fee and scheduling kernels that justice claims run on - first-attempt fee, RBF bumping (monotone, BIP-125 rules 3/4), package output value, merge, re-bump timer tied to the counterparty CSV height -, completeness of the retained revocation secrets (protocol-order prefix of the top m indices, SHA-256 uninterpreted), the amount claimed from a revoked HTLC output (amount_msat/1000 exactly) and the classification of revoked outputs as malleable packages. Detection of revoked commitments, secret derivation, package construction and witness validity are outside the claim.",
       "trusted: rustc MIR dump, engine_m, z3/cvc5; shares its obligations with C07 / C08.d (same code path)")
 K = "Kani 0.68 / CBMC bounded model checking of the compiled code"
 claim("C04", "M", "SMT bounded model checking of MIR (z3 + cvc5 portfolio)",
@@ -53,9 +53,9 @@ claim("C05", "M+K", "SMT bounded model checking of MIR with SHA-256 uninterprete
 claim("C12", "K", K,
       "Kernel level: codec primitives (ints, U48, BigSize, CollectionLength, HighZeroBytesDroppedBigSize, bool, Option) round-trip and canonical-form rejection for every input <= 10 bytes; FixedLengthReader bounds; the real TLV macros on a probe struct (ordering, required/unknown-even/odd rules, exact lengths, truncation). Large persisted objects are outside the claim.",
       "trusted: Kani/CBMC; Kani-only model of bitcoin-io's io::Error payload (harness/patched/bitcoin-io)")
-claim("C13", "K", K,
-      "Kernel level: key-free peer messages round-trip for arbitrary field values; decoding of bounded arbitrary inputs is total, canonical and never reads past the buffer; unknown even TLVs rejected, odd ignored. Messages with keys/signatures, onion packets and wire::read are outside the claim.",
-      "trusted: Kani/CBMC; Kani-only model of bitcoin-io's io::Error payload")
+claim("C13", "M+K", "Kani/CBMC bounded model checking of the compiled codecs; SMT bounded model checking of MIR (z3 + cvc5) for the node_announcement address section, incl. one inductive loop step",
+      "Kernel level: key-free peer messages round-trip for arbitrary field values; decoding of bounded arbitrary inputs is total, canonical and never reads past the buffer; unknown even TLVs rejected, odd ignored, out-of-range bool rejected (Kani). Engine M: address-descriptor lengths for all kinds and hostname lengths; the node_announcement decoder's address section with the byte source as a nondeterministic stub - accepted announcements account for exactly addrlen bytes (no address overruns addrlen), no panic, for <= 2 (quick) / 4 (thorough) descriptors, plus one loop iteration from an arbitrary invariant-satisfying loop-head state (any number of earlier addresses, any source length < 2^40). Messages with keys/signatures, onion packets and wire::read are outside the claim.",
+      "trusted: Kani/CBMC; Kani-only model of bitcoin-io's io::Error payload; rustc MIR dump, engine_m, z3/cvc5; reader stub listed in the evidence")
 claim("C14", "K", K,
       "Kernel level (narrow): AttributionData layout - shift_right/shift_left inverse on the retained bytes, hold-time and HMAC slot movement - for fully symbolic 920-byte contents. Onion construction/peeling and all cryptography are outside the claim.",
       "trusted: Kani/CBMC")
